@@ -204,6 +204,31 @@ def mk_iterative(qa, qb):
     return body
 
 
+def mk_iterative3(qa, qb, n_inter):
+    """cluster A = 3 groups with 2 or 3 mutual interactions (needs more
+    sweeps), cluster B = 2 groups"""
+    def body(ctx):
+        import propka.iterative as I
+        v = H.version()
+        A = _cluster(ctx, 'A', qa, 10)
+        B = _cluster(ctx, 'B', qb, 50)
+        pairs = [(0, 1), (1, 2), (0, 2)][:n_inter]
+        vals = [(ctx.real('A_hb%d' % i, 0, 1.7), ctx.real('A_coul%d' % i, 0, 2.1)) for i in range(n_inter)]
+        hb_, cb = ctx.real('B_hb', 0, 1.7), ctx.real('B_coul', 0, 2.1)
+        joint = [[[A[i], A[j]], [h, c], [0., 0.]] for (i, j), (h, c) in zip(pairs, vals)]
+        joint.append([[B[0], B[1]], [hb_, cb], [0., 0.]])
+        I.add_determinants(joint, v)
+        A2 = _clone_groups(A)
+        I.add_determinants([[[A2[i], A2[j]], [h, c], [0., 0.]] for (i, j), (h, c) in zip(pairs, vals)], v)
+        for g, g2 in zip(A, A2):
+            d1, d2 = _dets(g), _dets(g2)
+            ctx.claim('same-number-of-determinants', len(d1) == len(d2), detail='joint %r alone %r' % (d1, d2))
+            if len(d1) == len(d2):
+                for (k1, l1, v1), (k2, l2, v2) in zip(d1, d2):
+                    ctx.claim('same-determinant', And(k1 == k2 and l1 == l2, eq(v1, v2)))
+    return body
+
+
 def obligations(tier):
     E = 'propka/energy.py:'
     D = 'propka/determinants.py:'
@@ -238,6 +263,13 @@ def obligations(tier):
                                      'H-bond value in [0,1.7], Coulomb value in [0,2.1]; every number of sweeps the other cluster needs (<= 10)',
                               claim_doc='determinants of cluster A in the joint run == cluster A alone', max_paths=20000,
                               wall_s=170 if tier == 'quick' else 1200, query_timeout_ms=20000))
+    three = [((-1, -1, 1), (-1, 1), 2)] if tier == 'quick' else [((-1, -1, 1), (-1, 1), 2), ((-1, 1, 1), (-1, -1), 2), ((-1, -1, -1), (1, 1), 2), ((-1, -1, 1), (-1, 1), 3)]
+    for qa, qb, ni in three:
+        obs.append(Obligation('O2-iterative-clusters-3+2[A=%s,B=%s,%d interactions]' % (''.join('%+d' % q for q in qa), ''.join('%+d' % q for q in qb), ni),
+                              mk_iterative3(qa, qb, ni), code=obs[-1].code,
+                              bounds='cluster A: 3 groups with %d interactions, cluster B: 2 groups with 1; all values symbolic as above' % ni,
+                              claim_doc='determinants of cluster A in the joint run == cluster A alone', max_paths=50000,
+                              wall_s=170 if tier == 'quick' else 1500, query_timeout_ms=20000, shards=16))
     return obs
 
 
